@@ -3,6 +3,8 @@ package main
 // The SSA interpreter proper: frames, instructions, calls, panics.
 
 import (
+	"runtime"
+	"os"
 	"fmt"
 	"go/constant"
 	"go/token"
@@ -431,6 +433,9 @@ func (fr *frame) run() {
 		}
 		r := recover()
 		if _, isTarget := r.(targetPanic); !isTarget {
+			if re, ok := r.(runtime.Error); ok && os.Getenv("GOSYM_DEBUG") != "" {
+				fmt.Fprintf(os.Stderr, "  engine crash in %s: %v\n", fr.fn.String(), re)
+			}
 			panic(r) // engine-level control flow: do not run target defers
 		}
 		fr.panicking = true
